@@ -16,7 +16,10 @@ from harness import c05_lib as L
 STYLES = ["import", "import_as", "from_pkg", "from_pkg_as", "from_mod", "from_mod_as", "rel_pkg", "rel_mod", "star"]
 
 
-def gen_project(rng):
+IMPORT_USES = ["try", "default", "decorator", "if", "from_name", "import", "from", None]
+
+
+def gen_project(rng, idx=None):
     """-> dict(files={rel: text}, source=rel, dests=[rel], clients={rel: style})"""
     files = {}
     pkgs = [("a",), ("c",)]
@@ -31,16 +34,33 @@ def gen_project(rng):
         for n in rng.sample(["b", "s", "t", "bb", "st"], rng.choice([1, 2, 3, 3])):
             rel = "/".join(p + (n + ".py",))
             mods.append(rel)
-            files[rel] = "def g():\n    return %r\n" % (rel + ":g")
+            files[rel] = "def g():\n    return %r\ndef deco(fn):\n    return fn\n" % (rel + ":g")
     if rng.random() < 0.3:
-        files["m.py"] = "def g():\n    return 'm.py:g'\n"
+        files["m.py"] = "def g():\n    return 'm.py:g'\ndef deco(fn):\n    return fn\n"
         mods.append("m.py")
-    source = rng.choice([m for m in mods if "/" in m])
+    # a top-level module with the same name as a package-level one (s.py and a/s.py): absolute and relative
+    # from-imports of homonyms must not be merged
+    homonym = None
+    if rng.random() < 0.6:
+        cands = [m for m in mods if m.count("/") == 1 and m.split("/")[1] not in ("m.py",)]
+        if cands:
+            inner = rng.choice(cands)
+            top = inner.split("/")[1]
+            if top not in files:
+                files[top] = "def g():\n    return %r\ndef deco(fn):\n    return fn\n" % (top + ":g")
+                mods.append(top)
+                homonym = (top, inner)
+    source = rng.choice([m for m in mods if "/" in m and (homonym is None or m != homonym[1])])
     others = [m for m in mods if m != source]
-    uses_import = rng.choice([None, "import", "from", "from_name"]) if others else None
+    # how the moved function reaches a name the source module imported: in its body, only on its def line
+    # (default value), only in a decorator, or through an import that is not a top-level statement
+    uses_import = rng.choice([None, "import", "from", "from_name", "default", "decorator", "try", "if"]) if others else None
+    if idx is not None and others:
+        uses_import = IMPORT_USES[idx % len(IMPORT_USES)]      # every run sees every way of using an import
     lib = rng.choice(others) if others else None
     lines = []
     call = ""
+    header, deco_line = "def f():", None
     if uses_import and lib:
         ld = L.modname_of_rel(lib)
         if uses_import == "import":
@@ -52,11 +72,26 @@ def gen_project(rng):
         elif uses_import == "from_name":
             lines.append("from %s import g as lg" % ld)
             call = " + lg()"
+        elif uses_import == "default":
+            lines.append("from %s import g as lg" % ld)
+            header = "def f(v=lg()):"
+            call = " + v"
+        elif uses_import == "decorator":
+            lines.append("from %s import deco as dz" % ld)
+            deco_line = "@dz"
+        elif uses_import == "try":
+            lines += ["try:", "    from %s import g as lg" % ld, "except ImportError:", "    lg = None"]
+            call = " + lg()"
+        elif uses_import == "if":
+            lines += ["if True:", "    import %s as lm" % ld]
+            call = " + lm.g()"
     lines.append("def h():")
     lines.append("    return %r" % (source + ":h"))
     if rng.random() < 0.5:
         lines.append("# about f")
-    lines.append("def f():")
+    if deco_line:
+        lines.append(deco_line)
+    lines.append(header)
     lines.append("    return %r + h()%s" % (source + ":f", call))
     lines.append("def g():")
     lines.append("    return %r" % (source + ":g"))
@@ -93,6 +128,12 @@ def gen_project(rng):
         rel = "/".join(tuple(folder) + ("k%d.py" % i,))
         files[rel] = text
         clients[rel] = style
+    if homonym is not None and homonym[0] in others:
+        top, inner = homonym
+        pkg = inner.split("/")[0]
+        rel = "%s/h0.py" % pkg
+        files[rel] = "from .%s import g as sg\nfrom %s import f\nshow(f)\nshow(sg)\n" % (top[:-3], sd)
+        clients[rel] = "relative_import_of_homonym"
     # importers of the moved function that already have  from <top package> import <module>  for the top-level
     # package of a nested destination (a.p.t): the new import's  from pkg import mod  candidate must split at the
     # last dot
@@ -116,7 +157,13 @@ def gen_project(rng):
                 files[rel] = "import %s\nimport %s\nshow(%s.f)\nshow(%s.g)\n" % (od, sd, sd, od)
                 clients[rel] = "import_with_prefix_sibling"
                 break
-    return {"files": files, "source": source, "dests": others, "clients": clients}
+    if uses_import in ("try", "if") and lib in others:
+        # moving f into the module its source keeps importing conditionally would create an import cycle through
+        # the back-import of h: not a destination
+        others = [o for o in others if o != lib]
+    return {"files": files, "source": source, "dests": others, "clients": clients,
+            "features": {"uses_import": uses_import, "lib": lib},
+            "forced": [homonym[0]] if homonym is not None and homonym[0] in others else []}
 
 
 def run_one(files, source, dest):
@@ -184,13 +231,37 @@ def verdicts(files, source, dest, raised, before, after):
     return out
 
 
+def _bound_by_imports(text):
+    """names a module binds through from-imports and aliases (not the packages of plain imports)"""
+    import ast
+    out = set()
+    try:
+        tree = ast.parse(text)
+    except SyntaxError:
+        return out
+    for node in tree.body:
+        if isinstance(node, ast.ImportFrom):
+            out |= {a.asname or a.name for a in node.names}
+        elif isinstance(node, ast.Import):
+            out |= {a.asname for a in node.names if a.asname}
+    return out
+
+
 def classify(obj, rel):
     """structural signature of a failing module of a MoveGlobal project"""
     files, source, dest = obj["files"], obj["source"], obj["dest"]
+    feats = obj.get("features", {})
     if rel == source:
         return "source"
     if rel == dest:
+        # the moved def is pasted above the destination's own definitions: a name of the destination module that
+        # the def LINE needs (default value, decorator) does not exist yet
+        if feats.get("uses_import") in ("default", "decorator") and feats.get("lib") == dest:
+            return "dest:def-line-uses-a-global-of-the-destination"
         return "dest"
+    # the new `import <dest>` binds the first segment of the destination's name; the client already binds it
+    if L.modname_of_rel(dest).split(".")[0] in _bound_by_imports(files.get(rel, "")):
+        return "client:new-import-captures-bound-name"
     return "client:" + obj.get("clients", {}).get(rel, "other")
 
 
@@ -215,13 +286,14 @@ def minimal(proj, dest, rel):
     keep = {r: t for r, t in proj["files"].items()
             if r not in proj["clients"] or r == rel}
     return {"kind": "moveglobal", "files": keep, "source": proj["source"], "dest": dest, "module": rel,
+            "features": proj.get("features", {}),
             "clients": {rel: proj["clients"][rel]} if rel in proj["clients"] else {}}
 
 
 def run(ctx):
-    n = ctx.scale(5, 40)
-    for _ in range(n):
-        proj = gen_project(ctx.rng)
+    n = ctx.scale(6, 40)
+    for pi in range(n):
+        proj = gen_project(ctx.rng, pi)
         dests = proj["dests"]
         if len(dests) > ctx.scale(2, 3):
             # keep a destination that has a longer-named sibling imported by some client
@@ -229,8 +301,12 @@ def run(ctx):
                                            and L.modname_of_rel(o).startswith(L.modname_of_rel(d))
                                            for o in proj["dests"])][:1]
             key += [d for d in dests if d.count("/") >= 2 and d not in key][:1]      # a destination two packages deep
+            key += [d for d in proj.get("forced", []) if d not in key]               # the top-level homonym
             rest = [d for d in ctx.rng.sample(dests, ctx.scale(2, 3)) if d not in key]
             dests = key + rest[:max(0, ctx.scale(2, 3) - len(key))]
+        for d in proj.get("forced", []):
+            if d not in dests:
+                dests = dests + [d]
         for dest in dests:
             raised, before, after, texts = run_one(proj["files"], proj["source"], dest)
             ctx.traces += 1
